@@ -316,8 +316,98 @@ def main_prelu(cases):
     return out
 
 
+def main_parts(cases):
+    """[kind (0 CONCATENATION, 1 SPLIT, 2 SPLIT_V, 3 PACK), rank, axis, other extent, extents...]: the operator over tensors of
+    that rank; what rewrite_concat_ops / rewrite_split_ops make of it: per part the offset along the 4-D axis (write offset
+    of the copy for a concatenation, read offset of the slice for a split), the 4-D axis, and the part's extent there"""
+    import numpy as np
+    from ethosu.vela import model_reader
+    from ethosu.vela.architecture_features import Accelerator, create_default_arch
+    from ethosu.vela.operation import Op
+    from ethosu.vela.tflite_graph_optimiser import rewrite_concat_ops, rewrite_split_ops
+    arch = create_default_arch(Accelerator.Ethos_U55_128)
+    out = []
+    tmp = tempfile.mkdtemp(prefix="rw_", dir=os.environ.get("VERIF_TMP"))
+    for i, case in enumerate(cases):
+        kind, rank, axis, other = case[:4]
+        es = case[4:]
+        net = netgen.Net("parts")
+
+        def shp(e):
+            s_ = [1] + [other] * (rank - 1)
+            if kind != 3:
+                s_[axis] = e
+            return s_
+        if kind == 0 or kind == 3:
+            xs = [net.input(shp(e), "int8", 0.05, 3, name="in%d" % k) for k, e in enumerate(es)]
+            if kind == 0:
+                oshape = shp(sum(es))
+                y = net.tensor(oshape, "int8", 0.05, 3)
+                net.op("CONCATENATION", xs, [y], dict(Axis=axis, FusedActivationFunction=0))
+            else:
+                base = shp(0)
+                oshape = base[:axis] + [len(es)] + base[axis:]
+                y = net.tensor(oshape, "int8", 0.05, 3)
+                net.op("PACK", xs, [y], dict(ValuesCount=len(es), Axis=axis))
+            net.output(y)
+        else:
+            x = net.input(shp(sum(es)), "int8", 0.05, 3)
+            ys = [net.tensor(shp(e), "int8", 0.05, 3) for e in es]
+            ax = net.tensor([], "int32", None, None, [axis], name="axis")
+            if kind == 1:
+                net.op("SPLIT", [ax, x], ys, dict(NumSplits=len(es)))
+            else:
+                sz = net.tensor([len(es)], "int32", None, None, list(es), name="sizes")
+                net.op("SPLIT_V", [x, sz, ax], ys, dict(NumSplits=len(es)))
+            net.output(*ys)
+        path = os.path.join(tmp, "c%d.tflite" % i)
+        open(path, "wb").write(net.build())
+        nng, _ = model_reader.read_model(path, model_reader.ModelReaderOptions())
+        os.remove(path)
+        sg = nng.subgraphs[0]
+        if kind in (0, 3):
+            op = [o for o in sg.get_all_ops() if o.type.is_concat_op()][0]
+            op.run_on_npu = True
+            op.set_ifm_ofm_shapes()
+            ofm = op.ofm
+            rewrite_concat_ops(op, arch)
+            rows = []
+            for cp in ofm.ops:
+                wo = cp.write_offset.as_list()
+                ax4 = [a for a in range(4) if wo[a] != 0]
+                rows.append((wo, cp.ifm_shapes[0].as_list(), ax4))
+            # the 4-D axis: the one on which some copy has a non-zero offset
+            axes = sorted(set(a for r in rows for a in r[2]))
+            ax4 = axes[0] if len(axes) == 1 else -1
+            out.append({"axis4": ax4, "offsets": [int(r[0][ax4]) for r in rows] if ax4 >= 0 else [],
+                        "extents": [int(r[1][ax4]) for r in rows] if ax4 >= 0 else [], "other_axes_zero": all(len(r[2]) <= 1 for r in rows)})
+        else:
+            op = [o for o in sg.get_all_ops() if o.type.is_split_op()][0]
+            op.run_on_npu = True
+            op.set_ifm_ofm_shapes()
+            outs = list(op.outputs)
+            offs, exts, ax_seen = [], [], set()
+            for t in outs:
+                rewrite_split_ops(t, arch, nng)
+                sl = t.ops[0]
+                ro = sl.read_offsets[0].as_list()
+                for a in range(4):
+                    if ro[a] != 0:
+                        ax_seen.add(a)
+                offs.append(ro)
+                exts.append(sl.read_shapes[0].as_list() if sl.read_shapes[0] is not None else sl.ofm_shapes[0].as_list())
+            ax4 = sorted(ax_seen)[0] if len(ax_seen) == 1 else -1
+            out.append({"axis4": ax4, "offsets": [int(o_[ax4]) for o_ in offs] if ax4 >= 0 else [],
+                        "extents": [int(e_[ax4]) for e_ in exts] if ax4 >= 0 else [], "other_axes_zero": len(ax_seen) <= 1})
+    os.rmdir(tmp)
+    return out
+
+
 def main():
     cases = json.load(open(sys.argv[1]))
+    if len(sys.argv) > 3 and sys.argv[3] == "parts":
+        json.dump(main_parts(cases), open(sys.argv[2], "w"))
+        return
     if len(sys.argv) > 3 and sys.argv[3] == "prelu":
         json.dump(main_prelu(cases), open(sys.argv[2], "w"))
         return
